@@ -69,7 +69,7 @@ func checkC17(c caseC17) (viol string, v ref.Verdict) {
 		return fmt.Sprintf("Interpret panicked: %v", a.Panic), v
 	case a.Err == nil:
 		return "Parse rejects, Interpret returns no error", v
-	case a.Blocks != nil || a.Binding != nil:
+	case len(a.Blocks) != 0 || a.Binding != nil:
 		return fmt.Sprintf("rejection with results: blocks=%v binding=%v", a.Blocks, a.Binding), v
 	case a.Out != "":
 		return fmt.Sprintf("rejected program produced output %q", a.Out), v
